@@ -257,7 +257,7 @@ def register_cuts(eng, body, cuts):
         if c.get("occurrence") is not None:
             nodes = nodes[c["occurrence"] : c["occurrence"] + 1]
         for n in nodes:
-            eng.cuts[id(n)] = (clabel, c["assert"], list(c.get("havoc", [])))
+            eng.cuts[id(n)] = (clabel, c["assert"], list(c.get("havoc", [])), list(c.get("havoc_int_valued", [])))
 
 
 def cut_loop(eng, node, st, fid, spec, kind, iterv=None):
